@@ -190,10 +190,65 @@ def _drain_nonblocking(fd):
         n += len(chunk)
 
 
+def _thread_stacks():
+    """where every thread of this process is (a hang is diagnosed, not
+    re-rolled)"""
+    import sys
+    import traceback
+    names = {t.ident: t.name for t in threading.enumerate()}
+    out = []
+    for ident, frame in sys._current_frames().items():
+        out.append('--- thread %s\n%s' % (
+            names.get(ident, ident),
+            ''.join(traceback.format_stack(frame)[-6:])))
+    return '\n'.join(out)
+
+
+def _child_stacks(procs, fh_path):
+    """kernel-side state and Python stacks of the still-running children"""
+    import signal
+    out = []
+    for pr in procs:
+        info = []
+        for name in ('wchan', 'stack'):
+            try:
+                with open('/proc/%d/%s' % (pr.pid, name)) as f:
+                    info.append('%s: %s' % (name, f.read().strip()[:600]))
+            except OSError as exc:
+                info.append('%s: %r' % (name, exc))
+        try:
+            with open('/proc/%d/stat' % pr.pid) as f:
+                st = f.read().rsplit(')', 1)[1].split()
+            info.append('state=%s utime=%s stime=%s' % (st[0], st[11], st[12]))
+        except (OSError, IndexError) as exc:
+            info.append('stat: %r' % (exc,))
+        out.append('--- child process %s (%s)\n%s' % (
+            pr.name, pr.pid, '\n'.join(info)))
+        try:
+            os.kill(pr.pid, signal.SIGUSR1)
+        except OSError:
+            pass
+    if procs:
+        time.sleep(1.0)
+        try:
+            with open(fh_path) as f:
+                out.append('--- faulthandler dumps of the children\n' +
+                           f.read()[-6000:])
+        except OSError:
+            pass
+    return '\n'.join(out)
+
+
 def arena_main(case, tmpdir):
     """Run one scenario; returns the observations as a JSON-able dict."""
+    import faulthandler
+    import signal
     import billiard
     from queue import Full
+    # children inherit this handler: a stalled run can ask them where they are
+    fh_path = os.path.join(tmpdir, 'child_stacks.txt')
+    fh_file = open(fh_path, 'a')
+    faulthandler.register(signal.SIGUSR1, file=fh_file, all_threads=True)
     kind, maxsize = case['kind'], int(case['maxsize'])
     prods, cons = case['producers'], case['consumers']
     q = make_queue(kind, maxsize)
@@ -233,9 +288,11 @@ def arena_main(case, tmpdir):
         go.wait()
         preps[k] = produce(q, case, k, counters)
 
-    cthreads = {k: threading.Thread(target=cthread, args=(k,), daemon=True)
+    cthreads = {k: threading.Thread(target=cthread, args=(k,), daemon=True,
+                                    name='consumer-%d' % k)
                 for k, c in enumerate(cons) if not c['proc']}
-    pthreads = {k: threading.Thread(target=pthread, args=(k,), daemon=True)
+    pthreads = {k: threading.Thread(target=pthread, args=(k,), daemon=True,
+                                    name='producer-%d' % k)
                 for k, p in enumerate(prods) if not p['proc']}
     for t in list(cthreads.values()) + list(pthreads.values()):
         t.start()
@@ -246,6 +303,10 @@ def arena_main(case, tmpdir):
     res = {'phase': 'done', 'total': total, 'join': None, 'cap_max_lb': None}
 
     def collect():
+        if res['phase'] in ('stalled', 'producers_stuck'):
+            res['stacks'] = _thread_stacks() + '\n' + _child_stacks(
+                [pr for pr, _ in list(cprocs.values()) + list(pprocs.values())
+                 if pr.exitcode is None], fh_path)
         res['consumers'] = []
         for k in range(len(cons)):
             if k in cprocs:
@@ -347,7 +408,8 @@ def arena_main(case, tmpdir):
         def jprobe():
             q.join()
             jstate['progress_at_return'] = progress()
-        jthread = threading.Thread(target=jprobe, daemon=True)
+        jthread = threading.Thread(target=jprobe, daemon=True,
+                                   name='join-probe')
         jthread.start()
 
     # 4. consumers finish
